@@ -44,9 +44,8 @@ Tables ==
    dumps |-> [d \in Dumps |-> [k \in 1..Len(DumpOfId(d)) |->
                 <<DumpOfId(d)[k].title, DumpOfId(d)[k].ns, DumpOfId(d)[k].model, DumpOfId(d)[k].body>>]]]
 
-IsFirst == pc = "ingest" /\ pos = 1 /\ path = <<>> /\ ~scn.hasOv /\ ~scn.skip /\ ~scn.func /\ ~g.an
-           /\ g.d = "D0" /\ g.b = (CHOOSE x \in Bases : \A y \in Bases : x = y \/ x \in {"B0"} \/ (x = "B1" /\ y = "B2"))
-           /\ phase = "parse"
+IsFirst == pc = "ingest" /\ pos = 1 /\ path = <<>> /\ phase = "parse" /\ ~scn.hasOv /\ ~scn.skip /\ ~scn.func
+           /\ ~g.an /\ g.d = "D0" /\ g.b = (CHOOSE x \in Bases : TRUE)
 GenInv ==
   /\ (Part = 0 /\ IsFirst => PrintT(<<"TABLES", ToJson(Tables)>>))
   /\ (PDone => PrintT(<<"CASE", ToJson(CaseOf)>>))
@@ -62,5 +61,7 @@ SaveCase ==
    back |-> SetToSeq({B3(x) : x \in ReadBack(Tree(pages, win))}),
    injective |-> PathsInjective(pages, win),
    comesback |-> ComesBack(pages, win)]
+SGInit == SInit /\ g = [b |-> "", an |-> FALSE, d |-> ""]
+SGSpec == SGInit /\ [][UNCHANGED gvars]_gvars
 SGenInv == PrintT(<<"SAVE", ToJson(SaveCase)>>)
 =============================================================================
